@@ -195,7 +195,7 @@ struct TaskState;
 enum { ST_DEAD = 0, ST_LIVE = 1, ST_FINAL = 2 };
 
 struct HashObj { Slot m; int st = ST_DEAD; bool ever_init = false, freed = false; std::vector<uint8_t> msg; };
-struct HmacObj { Slot m; int st = ST_DEAD; bool ever_init = false; std::vector<uint8_t> key, keybuf; bool key_null = false; std::vector<uint8_t> msg; };
+struct HmacObj { Slot m; int st = ST_DEAD; bool ever_init = false; std::vector<uint8_t> key, keybuf; size_t keyoff = 0; bool key_null = false; std::vector<uint8_t> msg; };
 struct HkdfObj {
     Slot m; int st = ST_DEAD;
     std::vector<uint8_t> prk, info, stream; // stream = T(1)||T(2)||... computed lazily by the model
